@@ -1,7 +1,7 @@
 (* Driver for the C11 models (Model/Fs.v).
    usage: modelrun_c11 bufs|routes < cases > results
    bufs   : "<case of harness/c11_bufs.c> | <answers the wrappers gave, comma separated>"
-   routes : "<kv> <ring 0|1> ; <op> @ <resS> <resP> <resR> | <op> @ ..."  (harness/c11_routes.c) *)
+   routes : "<kv> <ring 0|1> ; <op> # <resS> <resP> <resR> | <op> # ..."  (harness/c11_routes.c) *)
 let iovmax_i = 1024
 let fnv (l : int list) : int =
   List.fold_left (fun h b -> ((h lxor b) * 16777619) land 0xFFFFFFFF) 2166136261 l
@@ -80,7 +80,51 @@ let bufs_case (line : string) : string =
   | _ -> "bad case"
 
 (* ---------------- routes ---------------- *)
-let path_of (s : string) : n list = List.init (String.length s) (fun i -> n_of_int (Char.code s.[i]))
+(* the long-string macros of harness/c11_routes.c (expand) *)
+let expand (a : string) : string =
+  let b = Buffer.create 256 in
+  let n = String.length a in
+  let num i = let j = ref i in
+    while !j < n && a.[!j] >= '0' && a.[!j] <= '9' do incr j done;
+    ((if !j > i then int_of_string (String.sub a i (!j - i)) else 0), !j) in
+  let letters k = for i = 0 to k - 1 do Buffer.add_char b (Char.chr (97 + i mod 26)) done in
+  let i = ref 0 in
+  while !i < n do
+    let c = a.[!i] in
+    if c = '+' then incr i
+    else if c <> '@' then (Buffer.add_char b c; incr i)
+    else begin
+      let k = a.[!i + 1] in
+      let (v, j) = num (!i + 2) in
+      i := j;
+      (match k with
+       | 't' -> for q = 0 to v - 1 do
+                  Buffer.add_char b (if q mod 200 = 199 && q <> v - 1 then '/' else Char.chr (97 + q mod 26)) done
+       | 'n' -> letters v
+       | 'd' ->
+           let len = if !i < n && a.[!i] = 'x' then (let (l, j2) = num (!i + 1) in i := j2; l) else 0 in
+           for q = 0 to v - 1 do (if q > 0 then Buffer.add_char b '/'); letters len done
+       | 'p' ->
+           if !i < n && a.[!i] = ':' then incr i;
+           let st = !i in
+           while !i < n && a.[!i] <> '+' do incr i done;
+           let leaf = String.sub a st (!i - st) in
+           let fill = ref (v - String.length leaf) in
+           if !fill >= 3 && !fill land 1 = 1 then (Buffer.add_string b ".//"; fill := !fill - 3);
+           while !fill >= 2 do Buffer.add_string b "./"; fill := !fill - 2 done;
+           Buffer.add_string b leaf
+       | _ -> ())
+    end
+  done;
+  Buffer.contents b
+
+let shown (s : string) : string =
+  let l = String.length s in
+  if l <= 200 then s
+  else Printf.sprintf "<%d:%d>" l (fnv (List.init l (fun i -> Char.code s.[i])))
+
+let path_of (s0 : string) : n list =
+  let s = expand s0 in List.init (String.length s) (fun i -> n_of_int (Char.code s.[i]))
 let string_of_path (p : n list) : string =
   String.concat "" (List.map (fun c -> String.make 1 (Char.chr (int_of_n c))) p)
 let oct s = int_of_string ("0o" ^ s)
@@ -135,6 +179,7 @@ let parse_op (toks : string list) : opinfo =
   | "sendfile" -> mk (OSendfile (zi (slot (a 1)), zi (slot (a 2)), z_of_string (a 3), z_of_string (a 4))) KFd
   | "statx95" -> mk (OStat (path_of (a 1))) KStat
   | "burst" -> { op = None; kind = KPath1; big = false; lim = -1 }
+  | "mkdirp" -> { op = None; kind = KPath1; big = false; lim = -2 }
   | "cancel" ->
       let kind, big = match a 1 with
         | "stat" -> KStat, false | "read" -> KRead, true | "write" -> KWrite, true
@@ -149,11 +194,11 @@ let sqe_text (s : sqe) : string =
   let a1 = match s.s_addr with
     | ARIov lens -> Printf.sprintf "I:%d:%d" (List.length lens) (List.fold_left (fun x l -> x + int_of_nat l) 0 lens)
     | AWIov ds -> Printf.sprintf "I:%d:%d" (List.length ds) (List.fold_left (fun x d -> x + List.length d) 0 ds)
-    | AStr p -> "S:" ^ string_of_path p
+    | AStr p -> "S:" ^ shown (string_of_path p)
     | ANull -> "0"
     | AStatxBuf -> "X" in
   let a2 = match s.s_addr2 with
-    | AStr p -> "S:" ^ string_of_path p | AStatxBuf -> "X" | ANull -> "0" | _ -> "?" in
+    | AStr p -> "S:" ^ shown (string_of_path p) | AStatxBuf -> "X" | ANull -> "0" | _ -> "?" in
   let off = if List.mem opc [35; 38; 39; 21] then "0" else string_of_z s.s_off in
   Printf.sprintf "%d,%s,%s,%s,%s,%s,%s" opc fd off a1 a2 (string_of_z s.s_len) (string_of_z s.s_flags)
 
@@ -203,7 +248,7 @@ let routes_case (line : string) : string =
     let ops = List.filter (fun s -> String.trim s <> "") (String.split_on_char '|' body) in
     let buf = Buffer.create 1024 in
     List.iteri (fun idx o ->
-      let optxt, restxt = match String.index_opt o '@' with
+      let optxt, restxt = match String.index_opt o '#' with
         | Some j -> String.sub o 0 j, String.sub o (j + 1) (String.length o - j - 1)
         | None -> o, "" in
       let toks = split_on ' ' optxt in
@@ -213,6 +258,8 @@ let routes_case (line : string) : string =
       let name = List.hd toks in
       Buffer.add_string buf (Printf.sprintf "%d:%s" idx name);
       (match info.op with
+       | None when info.lim = -2 ->
+           Buffer.add_string buf " via=- sqe=- mS=- mP=- mR=-"
        | None when info.lim = -1 ->
            (* a burst: how many requests find room in the ring depends on the kernel thread *)
            Buffer.add_string buf " via=b sqe=- mS=- mP=- mR=-"
@@ -251,7 +298,10 @@ let routes_case (line : string) : string =
              tuple info.kind rt ~big:info.big ~early ~ok ~n ~lim:info.lim in
            Buffer.add_string buf (Printf.sprintf " via=%s sqe=%s mS=%s mP=%s mR=%s"
              (if early then "-" else if ring then "r" else "p") sq
-             (m Sync 0) (m Pool 1) (m (if ring then Ring else Pool) 2))
+             (m Sync 0) (m Pool 1) (m (if ring then Ring else Pool) 2));
+           (* readlink <path> <pathconf answer>: the buffer size offered to readlink(2) *)
+           if name = "readlink" && List.length toks >= 3 then
+             Buffer.add_string buf (" bs=" ^ string_of_z (pathmax_size (z_of_string (List.nth toks 2))))
          end);
       Buffer.add_string buf " ; ") ops;
     Buffer.contents buf
